@@ -110,10 +110,13 @@ func verifCheckClosed(w *inotify) {
 	}
 	verifAssert(verifChanStat(w.Events, "closed") == 1 && verifChanStat(w.Errors, "closed") == 1, "Events and Errors are closed after Close")
 	verifAssert(verifChanStat(w.Events, "closers") <= 1 && verifChanStat(w.Errors, "closers") <= 1, "channels closed once")
+	addsBefore, rmsBefore := verifK.addCalls, verifK.rmCalls
 	err := w.Add("/t")
 	verifAssert(err != nil && errors.Is(err, ErrClosed), "Add after Close fails with ErrClosed")
 	verifAssert(w.Remove("/t") == nil, "Remove after Close returns nil")
+	verifAssert(w.Remove("/t/a") == nil, "Remove after Close returns nil")
 	verifAssert(w.WatchList() == nil, "WatchList after Close returns nil")
+	verifAssert(verifK.addCalls == addsBefore && verifK.rmCalls == rmsBefore, "after Close the API is inert: no system call may be issued on the released descriptor (its number may already belong to another Watcher)")
 	verifAssert(verifK.closeCalls == 1, "the inotify descriptor is closed exactly once")
 	for i := range verifK.marks {
 		verifAssert(verifK.marks[i].state != kLive, "no kernel watch survives Close")
@@ -263,6 +266,15 @@ func H_lifecycle() {
 	}
 	if verifBool("park") {
 		verifQuiesce() // let the reader decode and park (pending event / pending error)
+	}
+	// the environment may delete watched files at any time: their marks are destroyed by
+	// the kernel while the IN_IGNORED is still unread
+	if kill := verifChoose("deleted-before-close", 3); kill > 0 {
+		m := &verifK.marks[kill-1]
+		if m.state == kLive {
+			m.state = kDying
+			verifReach("lifecycle-deleted-before-close")
+		}
 	}
 	two := verifBool("two-closers")
 	d := make(chan error, 1)
